@@ -311,7 +311,7 @@ func rulePublishOrder(r *Run, rule string) {
 			recv := call.Common().Args[0]
 			fresh := false
 			if c, ok := recv.(*ssa.Call); ok {
-				if g := staticCallee(c.Common()); g != nil && g.Name() == "newSegmentMetadata" {
+				if g := staticCallee(c.Common()); g != nil && fnShortName(g) == "newSegmentMetadata" {
 					fresh = true
 				}
 			}
@@ -381,6 +381,10 @@ func ruleStaleActs(r *Run, rule string) {
 		type lk struct {
 			in ssa.Instruction
 			mu string
+			// a critical section that lives in a helper: `v := s.loadedIndex()` takes s.mu, reads guarded fields and
+			// releases it before returning; the call is lock and unlock at once and v carries what was read
+			virtual *ssa.Call
+			fields  []string
 		}
 		var locks, unlocks []lk
 		allInstrs(fn, func(in ssa.Instruction) {
@@ -389,21 +393,55 @@ func ruleStaleActs(r *Run, rule string) {
 				return
 			}
 			if op == "Lock" || op == "RLock" {
-				locks = append(locks, lk{in, c.S(cc.Args[0])})
+				locks = append(locks, lk{in: in, mu: c.S(cc.Args[0])})
 			} else {
-				unlocks = append(unlocks, lk{in, c.S(cc.Args[0])})
+				unlocks = append(unlocks, lk{in: in, mu: c.S(cc.Args[0])})
 			}
+		})
+		allInstrs(fn, func(in ssa.Instruction) {
+			call, ok := in.(*ssa.Call)
+			if !ok || len(call.Call.Args) == 0 {
+				return
+			}
+			g := staticCallee(call.Common())
+			if g == nil || g == fn || g.Pkg != w.SPkg || g.Signature.Recv() == nil || g.Signature.Results().Len() == 0 {
+				return
+			}
+			// g takes P0.<mutex> itself and reads guarded fields of P0 under it
+			gc := NewCanon(w)
+			mu := ""
+			allInstrs(g, func(gi ssa.Instruction) {
+				if op, _, cc := lockOp(gi); (op == "Lock" || op == "RLock") && strings.HasPrefix(gc.S(cc.Args[0]), "P0.") && strings.Count(gc.S(cc.Args[0]), ".") == 1 {
+					mu = gc.S(cc.Args[0])
+				}
+			})
+			if mu == "" {
+				return
+			}
+			var fields []string
+			for _, a := range l.accesses[g] {
+				if a.Base == "P0" && !a.Write && !l.immut[a.Class+"."+a.Field] {
+					fields = append(fields, a.Class+"."+a.Field)
+				}
+			}
+			if len(fields) == 0 {
+				return
+			}
+			locks = append(locks, lk{in: in, mu: c.S(call.Call.Args[0]) + strings.TrimPrefix(mu, "P0"), virtual: call, fields: fields})
 		})
 		if len(locks) < 2 {
 			continue
 		}
 		for _, l1 := range locks {
 			for _, l2 := range locks {
-				if l1.in == l2.in || l1.mu != l2.mu || !domInstr(l1.in, l2.in) {
+				if l1.in == l2.in || l1.mu != l2.mu || !domInstr(l1.in, l2.in) || l2.virtual != nil {
 					continue
 				}
 				// an explicit unlock of the same mutex between them on every path? one that dominates l2 suffices
 				var u ssa.Instruction
+				if l1.virtual != nil {
+					u = l1.in // released inside the helper before it returns
+				}
 				for _, ul := range unlocks {
 					if ul.mu == l1.mu && domInstr(l1.in, ul.in) && domInstr(ul.in, l2.in) {
 						u = ul.in
@@ -440,10 +478,20 @@ func ruleStaleActs(r *Run, rule string) {
 						}
 					}
 				}
-				if len(r1) == 0 || len(r2w) == 0 {
+				r1vals := map[ssa.Value]string{}
+				if l1.virtual != nil {
+					// what the helper read reaches this function as the call's result(s)
+					r1 = nil
+					r1vals[l1.virtual] = l1.fields[0]
+					for _, ref := range *l1.virtual.Referrers() {
+						if ex, ok := ref.(*ssa.Extract); ok {
+							r1vals[ex] = l1.fields[0]
+						}
+					}
+				}
+				if (len(r1) == 0 && l1.virtual == nil) || len(r2w) == 0 {
 					continue
 				}
-				r1vals := map[ssa.Value]string{}
 				for _, a := range r1 {
 					r1vals[a.In.(*ssa.FieldAddr)] = a.Class + "." + a.Field
 				}
@@ -798,11 +846,33 @@ func ruleLockOrder(r *Run, rule string) {
 			if call, ok := in.(*ssa.Call); ok && calleeName(call.Common()) == "builtin:close" {
 				cl = in
 			}
-			if st, ok := in.(*ssa.Store); ok && c.S(st.Addr) == "P0.closed" {
-				set = in
-			}
 		})
-		r.Check(cl != nil && set != nil && domInstr(set, cl), rule, "order:close-once", w.Pos(fn.Pos())+" "+w.Name(fn), "the close channel is closed only by the Close that set the closed flag", "close(closeChan) is not dominated by the closed test-and-set (double close panics)")
+		if gate := findCloseGate(w, fn); gate != nil && gate.Atomic {
+			set = gate.Set
+		}
+		_ = c
+		onceOK := cl != nil && set != nil && domInstr(set, cl)
+		if !onceOK && cl != nil && set != nil {
+			// not by dominance (the set may sit in one arm of an inlined helper): on every feasible path that reaches the
+			// close, the flag was set before
+			paths, trunc := enumPaths(fn.Blocks[0], walkCfg{MaxVisits: 2, MaxPaths: 20000})
+			onceOK = !trunc
+			for _, pth := range paths {
+				if !pth.Feasible() {
+					continue
+				}
+				seenSet := false
+				for _, in := range pth.Instrs() {
+					if in == set {
+						seenSet = true
+					}
+					if in == cl && !seenSet {
+						onceOK = false
+					}
+				}
+			}
+		}
+		r.Check(onceOK, rule, "order:close-once", w.Pos(fn.Pos())+" "+w.Name(fn), "the close channel is closed only by the Close that set the closed flag", "close(closeChan) is not dominated by the closed test-and-set (double close panics)")
 	}
 }
 
